@@ -195,6 +195,9 @@ package processor
 //@   ensures [governance-never-signed] old(k.EmitterAddress == p.governanceEmitterAddress && k.EmitterChain == p.governanceChainId) ==> unchanged("chan") && unchanged("vaaState.*") && unchanged("map[string]*vaaState")
 //@   ensures [dropped-without-set] old(p.gs) == nil ==> unchanged("chan") && unchanged("vaaState.*") && unchanged("map[string]*vaaState")
 //@   ensures [never-stores] storeUnchanged(p.db)
+//@   ensures [skips-only-if-a-settled-vaa-is-stored] nsent(p.sendC) == old(nsent(p.sendC)) ==> old(p.gs) == nil || old(k.EmitterAddress == p.governanceEmitterAddress && k.EmitterChain == p.governanceChainId)
+//@     | || (stored(p.db, struct("vaa.VAAID", k.EmitterChain, k.EmitterAddress, k.TargetChain, k.Sequence))
+//@     |     && tns(k.Timestamp) - 1000000000 * be32at(storedBytes(p.db, struct("vaa.VAAID", k.EmitterChain, k.EmitterAddress, k.TargetChain, k.Sequence)), 6 + 66*storedBytes(p.db, struct("vaa.VAAID", k.EmitterChain, k.EmitterAddress, k.TargetChain, k.Sequence))[5]) > 30000000000)
 //@   at [p.broadcastSignature(v, s, k.TxHash.Bytes())]: assert [deterministic-vaa] v.Version == 1 && v.GuardianSetIndex == p.gs.Index && len(v.Signatures) == 0 && v.Timestamp == k.Timestamp && v.Nonce == k.Nonce && v.EmitterChain == k.EmitterChain && v.TargetChain == k.TargetChain && v.EmitterAddress == k.EmitterAddress && v.Payload == k.Payload && v.Sequence == k.Sequence && v.ConsistencyLevel == k.ConsistencyLevel
 //@   at [p.broadcastSignature(v, s, k.TxHash.Bytes())]: assert [signs-own-digest] len(s) == 65 && ecrec_ok(vaa.digestOf(v), from65(s))
 //@   requires Inv(p) && k != nil
